@@ -31,10 +31,10 @@ func c04Src(tier string) *SrcCfg {
 		Asset:     "USD",
 		Accts:     ws(0, "a", "b", "world"),
 		VarAccts:  ws(0, "$v"),
-		Grants:    cat(ws(0, "2"), ws(1, "-1", H.String())),
+		Grants:    cat(ws(0, "2"), ws(1, "-1", "$cg")), // $cg: a monetary variable holding a grant beyond 2^64 (never a literal)
 		GrantAcct: ws(0, "a", "b"),
 		Unbounded: true,
-		Caps:      cat(ws(0, "2", "0", "5"), ws(1, "-1", H.String())),
+		Caps:      cat(ws(0, "2", "0", "5"), ws(1, "-1", "$cc")),
 		Vecs: []PortVec{
 			{[]string{"1/2", "1/2"}, 0},
 			{[]string{"1/3", "remaining"}, 0},
